@@ -51,6 +51,11 @@ pub enum Error {
 
 pub type RdpResult<T> = Result<T, Error>;
 
+/// the error that RdpClient::try_write swallows; I/O and serialization never produce it
+pub open spec fn automata_err<T>(r: RdpResult<T>) -> bool {
+    r is Err && r->Err_0 is RdpError && r->Err_0->RdpError_0.kind == RdpErrorKind::InvalidAutomata
+}
+
 pub open spec fn is_suffix(s: Seq<u8>, of: Seq<u8>) -> bool {
     s.len() <= of.len() && forall|i: int| 0 <= i < s.len() ==> #[trigger] s[i] == of[of.len() - s.len() + i]
 }
@@ -150,6 +155,7 @@ pub trait Write: Sized {
     /// std: accepts ANY prefix of `buf` (short writes allowed).
     fn write(&mut self, buf: &[u8]) -> (r: RdpResult<usize>)
         ensures
+            !automata_err(r),
             final(self).rd() == old(self).rd(),
             r is Ok ==> r->Ok_0 <= buf@.len()
                 && final(self).written() == old(self).written() + buf@.take(r->Ok_0 as int),
@@ -158,6 +164,7 @@ pub trait Write: Sized {
     /// std: everything or an error (after a possibly partial delivery).
     fn write_all(&mut self, buf: &[u8]) -> (r: RdpResult<()>)
         ensures
+            !automata_err(r),
             final(self).rd() == old(self).rd(),
             r is Ok ==> final(self).written() == old(self).written() + buf@,
             r is Err ==> is_prefix(old(self).written(), final(self).written())
@@ -165,12 +172,14 @@ pub trait Write: Sized {
 
     fn write_u8(&mut self, v: u8) -> (r: RdpResult<()>)
         ensures
+            !automata_err(r),
             final(self).rd() == old(self).rd(),
             r is Ok ==> final(self).written() == old(self).written() + seq![v],
             r is Err ==> final(self).written() == old(self).written();
 
     fn write_u16<E: ByteOrder>(&mut self, v: u16) -> (r: RdpResult<()>)
         ensures
+            !automata_err(r),
             final(self).rd() == old(self).rd(),
             r is Ok ==> final(self).written() == old(self).written() + enc16(v, E::le()),
             r is Err ==> is_prefix(old(self).written(), final(self).written())
@@ -178,6 +187,7 @@ pub trait Write: Sized {
 
     fn write_u32<E: ByteOrder>(&mut self, v: u32) -> (r: RdpResult<()>)
         ensures
+            !automata_err(r),
             final(self).rd() == old(self).rd(),
             r is Ok ==> final(self).written() == old(self).written() + enc32(v, E::le()),
             r is Err ==> is_prefix(old(self).written(), final(self).written())
